@@ -466,5 +466,547 @@ theorem put_core {s : BufStore} (p tid x d) (h : Core s) (hok : hasItem (inside 
     rw [capRoom_of_granted h.toPre ht] at hroom
     exact absurd hroom (by simp)
 
+
+/-! ### get -/
+
+theorem get_cases (s : BufStore) (p tid : Nat) :
+    (s.get p tid = (s, .err .runtime) ∧ ∀ t ∈ s.getRes, ¬ (t.id = tid ∧ t.proc = p)) ∨
+    (∃ t, t ∈ s.getRes ∧ t.id = tid ∧ t.proc = p ∧
+      ((s.resEv.idxOf t ≥ s.resEv.length ∧ (s.get p tid).2 = .err .value) ∨
+       (s.resEv.idxOf t < s.resEv.length ∧ s.resItems[s.resEv.idxOf t]? = none ∧ (s.get p tid).2 = .err .value) ∨
+       (∃ e, s.resEv.idxOf t < s.resEv.length ∧ s.resItems[s.resEv.idxOf t]? = some e ∧
+          ((hasItem s.ready e.item = true ∧
+            s.get p tid = ((((s.unbind t (s.resEv.idxOf t)).takeEntry e).updLevel).trigPut, .item e.item)) ∨
+           (hasItem s.ready e.item = false ∧ (s.get p tid).2 = .err .value))))) := by
+  unfold get
+  split
+  · left; refine ⟨rfl, ?_⟩
+    intro t ht; simp_all
+  · split
+    · rename_i hnone
+      left; refine ⟨rfl, ?_⟩
+      intro t ht hc
+      have := List.find?_eq_none.mp hnone t ht
+      simp [hc.1, hc.2] at this
+    · rename_i t hsome
+      right
+      have hm := List.mem_of_find?_eq_some hsome
+      have hp := List.find?_some hsome
+      simp at hp
+      refine ⟨t, hm, hp.1, hp.2, ?_⟩
+      split
+      · left; exact ⟨by assumption, rfl⟩
+      · rename_i hlt
+        right
+        split
+        · left; exact ⟨by omega, by assumption, rfl⟩
+        · rename_i e hx
+          right
+          refine ⟨e, by omega, hx, ?_⟩
+          split
+          · left; exact ⟨by assumption, rfl⟩
+          · right; exact ⟨by simp_all, rfl⟩
+
+/-- the entry bound to a granted retrieval is in `ready_items` -/
+theorem bound_mem_ready {s : BufStore} (h : Pre s) {i : Nat} {e : BEntry} (he : s.resItems[i]? = some e) :
+    e ∈ s.ready := resItems_sub h e (List.mem_of_getElem? he)
+
+theorem eraseIdx_perm_erase {l : List BEntry} {i : Nat} {e : BEntry} (he : l[i]? = some e) :
+    (l.eraseIdx i).Perm (l.erase e) := by
+  have h1 := perm_cons_eraseIdx he
+  have h2 := h1.erase e
+  simpa using h2.symm
+
+/-- what the reserved part looks like after entry `e` (reserved) has been taken out of `ready` -/
+theorem resPart_erase {s : BufStore} (h : Pre s) {e : BEntry} (he : e ∈ resPart s) (hk : 0 < s.resEv.length) :
+    (match s.cfg.mode with
+     | .fifo => (s.ready.erase e).take (s.resEv.length - 1)
+     | .lifo => (s.ready.erase e).drop ((s.ready.erase e).length - (s.resEv.length - 1))) = (resPart s).erase e := by
+  have hnd := ready_nodup h.dist
+  have her : e ∈ s.ready := resPart_sub e he
+  unfold resPart at he ⊢
+  cases hm : s.cfg.mode with
+  | fifo =>
+    simp only [hm] at he ⊢
+    exact erase_take_of_mem_take hnd he
+  | lifo =>
+    simp only [hm] at he ⊢
+    have hl : (s.ready.erase e).length = s.ready.length - 1 := List.length_erase_of_mem her
+    have hle := h.bindLe
+    have : s.ready.length - 1 - (s.resEv.length - 1) = s.ready.length - s.resEv.length := by omega
+    rw [hl, this]
+    exact erase_drop_of_mem_drop hnd he
+
+theorem unbind_take_pre {s : BufStore} (h : Pre s) {t : Tok} (ht : t ∈ s.getRes) {e : BEntry}
+    (hidx : s.resEv.idxOf t < s.resEv.length) (he : s.resItems[s.resEv.idxOf t]? = some e) :
+    Pre ((s.unbind t (s.resEv.idxOf t)).takeEntry e) := by
+  have her := bound_mem_ready h he
+  have hrem := removeItem_eq_erase h.dist her
+  have heres : e ∈ s.resItems := List.mem_of_getElem? he
+  have hepart : e ∈ resPart s := h.bindItems.mem_iff.mp heres
+  obtain ⟨a, b, c, f, g, i, j, k, l, m⟩ := h
+  have hgl : (s.getRes.erase t).length + 1 = s.getRes.length := by
+    have : 0 < s.getRes.length := List.length_pos_of_mem ht
+    rw [List.length_erase_of_mem ht]; omega
+  have hrl := length_eraseIdx_lt hidx
+  have hil : (s.resItems.eraseIdx (s.resEv.idxOf t)).length + 1 = s.resItems.length :=
+    length_eraseIdx_lt (by omega)
+  have hreadyl : (s.ready.erase e).length + 1 = s.ready.length := by
+    have : 0 < s.ready.length := List.length_pos_of_mem her
+    rw [List.length_erase_of_mem her]; omega
+  have hsub : (allToks ((s.unbind t (s.resEv.idxOf t)).takeEntry e)).Sublist (allToks s) := by
+    unfold allToks; simp only [takeEntry, unbind]
+    exact List.Sublist.append (List.Sublist.refl _) List.erase_sublist
+  refine ⟨?_, (hsub.map _).nodup b, fun t' ht' => by simpa [takeEntry, unbind] using c t' (hsub.subset ht'), ?_, ?_, ?_, ?_, ?_, l, ?_⟩
+  · intro c' hc'
+    simp only [takeEntry, unbind, level, hrem] at hc' ⊢
+    have := a c' hc'; simp only [level] at this; omega
+  · simp only [takeEntry, unbind]
+    rw [← List.erase_eq_eraseIdx_of_idxOf rfl]; exact f.erase t
+  · simp only [takeEntry, unbind]; omega
+  · simp only [takeEntry, unbind, hrem]; omega
+  · have hpe := resPart_erase ⟨a, b, c, f, g, i, j, k, l, m⟩ hepart (by omega)
+    unfold resPart
+    simp only [takeEntry, unbind, hrem]
+    have hkl : (s.resEv.eraseIdx (s.resEv.idxOf t)).length = s.resEv.length - 1 := by omega
+    rw [hkl]
+    have hperm : (s.resItems.eraseIdx (s.resEv.idxOf t)).Perm ((resPart s).erase e) :=
+      (eraseIdx_perm_erase he).trans (j.erase e)
+    cases hm : s.cfg.mode with
+    | fifo => simp only [hm] at hpe ⊢; rw [hpe]; exact hperm
+    | lifo => simp only [hm] at hpe ⊢; rw [hpe]; exact hperm
+  · unfold Distinct inside at *
+    simp only [takeEntry, unbind, hrem]
+    have hs : (s.transit ++ s.ready.erase e).Sublist (s.transit ++ s.ready) :=
+      List.Sublist.append (List.Sublist.refl _) List.erase_sublist
+    exact (hs.map _).nodup k
+  · unfold inside at *
+    simp only [takeEntry, unbind, hrem]
+    have hp : (s.transit ++ s.ready).Perm (e :: (s.transit ++ s.ready.erase e)) := by
+      have := List.perm_cons_erase her
+      exact (List.Perm.append_left _ this).trans List.perm_middle
+    have hp2 := hp.map (·.item)
+    refine List.Perm.trans ?_ m
+    rw [List.append_assoc]
+    exact List.Perm.append_left _ (by simpa using hp2.symm)
+
+theorem get_core {s : BufStore} (p tid) (h : Core s) : Core (s.get p tid).1 ∧ (s.get p tid).1.timers = s.timers ∧
+    (s.get p tid).1.transit = s.transit := by
+  have hlenEv : s.resEv.length = s.getRes.length := h.bindEv.length_eq
+  rcases get_cases s p tid with ⟨he, _⟩ | ⟨t, ht, _, _, ⟨hidx, _⟩ | ⟨hidx, hnone, _⟩ | ⟨e, hidx, hx, ⟨hhas, he⟩ | ⟨hhas, _⟩⟩⟩
+  · rw [he]; exact ⟨h, rfl, rfl⟩
+  · exfalso
+    have hte : t ∈ s.resEv := h.bindEv.mem_iff.mpr ht
+    have := List.idxOf_lt_length_of_mem hte; omega
+  · exfalso
+    have := h.bindLen
+    rw [List.getElem?_eq_getElem (by omega)] at hnone; simp at hnone
+  · rw [he]; simp only
+    have hpre := unbind_take_pre h.toPre ht hidx hx
+    have her := bound_mem_ready h.toPre hx
+    have hrem := removeItem_eq_erase h.dist her
+    refine ⟨⟨trigPut_pre (updLevel_pre hpre), trigPut_wakePut ?_ ?_, trigPut_wakeGet ?_⟩, by simp [takeEntry, unbind], by simp [takeEntry, unbind]⟩
+    · intro t' q hq hne c hc
+      simp only [updLevel_putQ, updLevel_cfg, updLevel_putRes, level, updLevel_transit, updLevel_ready, takeEntry, unbind, hrem] at hq hc ⊢
+      have := full_of_waiting h.wakePut (by rw [hq]; simp) c hc
+      simp only [level] at this
+      have : (s.ready.erase e).length + 1 = s.ready.length := by
+        have : 0 < s.ready.length := List.length_pos_of_mem her
+        rw [List.length_erase_of_mem her]; omega
+      omega
+    · intro hc
+      simp only [updLevel_cfg, updLevel_putQ, takeEntry, unbind] at hc ⊢
+      rw [putQ_nil_of_inf h.wakePut hc]; simp
+    · unfold WakeGet
+      simp only [updLevel_getQ, updLevel_ready, updLevel_getRes, takeEntry, unbind, hrem]
+      intro hne
+      have := h.wakeGet hne
+      have h1 : (s.ready.erase e).length + 1 = s.ready.length := by
+        have : 0 < s.ready.length := List.length_pos_of_mem her
+        rw [List.length_erase_of_mem her]; omega
+      have h2 : (s.getRes.erase t).length + 1 = s.getRes.length := by
+        have : 0 < s.getRes.length := List.length_pos_of_mem ht
+        rw [List.length_erase_of_mem ht]; omega
+      omega
+  · exfalso
+    rw [hasItem_of_mem (bound_mem_ready h.toPre hx)] at hhas
+    exact absurd hhas (by simp)
+
+
+/-! ### cancellations -/
+
+theorem cancelPut_core {s : BufStore} (tid) (h : Core s) : Core (s.cancelPut tid).1 := by
+  unfold cancelPut
+  split
+  · rename_i t hf
+    have ht := (findTok_some hf).1
+    simp only
+    have hsub : (allToks { s with putQ := s.putQ.erase t }).Sublist (allToks s) := by
+      unfold allToks; simp only
+      exact List.Sublist.append (List.Sublist.append (List.Sublist.append List.erase_sublist (List.Sublist.refl _)) (List.Sublist.refl _)) (List.Sublist.refl _)
+    have hpre : Pre { s with putQ := s.putQ.erase t } := by
+      obtain ⟨⟨a, b, c, f, g, i, j, k, l, m⟩, _, _⟩ := h
+      exact ⟨a, (hsub.map _).nodup b, fun t' ht' => c t' (hsub.subset ht'), f, g, i, j, k, l, m⟩
+    refine ⟨trigPut_pre hpre, trigPut_wakePut ?_ ?_, trigPut_wakeGet h.wakeGet⟩
+    · intro t' q hq _ c hc
+      simp only [level] at hq hc ⊢
+      have := full_of_waiting h.wakePut (List.ne_nil_of_mem ht) c hc
+      simp only [level] at this; omega
+    · intro hc
+      simp only at hc
+      have := putQ_nil_of_inf h.wakePut hc
+      rw [this] at ht; simp at ht
+  · split
+    · rename_i t hf
+      have ht := (findTok_some hf).1
+      simp only
+      have hlen : (s.putRes.erase t).length + 1 = s.putRes.length := by
+        have : 0 < s.putRes.length := List.length_pos_of_mem ht
+        rw [List.length_erase_of_mem ht]; omega
+      have hsub : (allToks (s.dropPutRes t)).Sublist (allToks s) := by
+        unfold allToks; simp only [dropPutRes]
+        exact List.Sublist.append (List.Sublist.append (List.Sublist.append (List.Sublist.refl _) List.erase_sublist) (List.Sublist.refl _)) (List.Sublist.refl _)
+      have hpre : Pre (s.dropPutRes t) := by
+        obtain ⟨⟨a, b, c, f, g, i, j, k, l, m⟩, _, _⟩ := h
+        refine ⟨?_, (hsub.map _).nodup b, fun t' ht' => c t' (hsub.subset ht'), f, g, i, j, k, l, m⟩
+        intro c' hc'
+        simp only [dropPutRes, level] at hc' ⊢
+        have := a c' hc'; simp only [level] at this; omega
+      refine ⟨trigPut_pre hpre, trigPut_wakePut ?_ ?_, trigPut_wakeGet h.wakeGet⟩
+      · intro t' q hq _ c hc
+        simp only [dropPutRes, level] at hq hc ⊢
+        have := full_of_waiting h.wakePut (by rw [hq]; simp) c hc
+        simp only [level] at this; omega
+      · intro hc
+        simp only [dropPutRes] at hc ⊢
+        rw [putQ_nil_of_inf h.wakePut hc]; simp
+    · exact h
+
+/-- what the reserved part looks like after the released entry is re-inserted -/
+theorem resPart_release {s : BufStore} (r : List BEntry) (e : BEntry) (k : Nat) (hk : k ≤ r.length) :
+    (match s.cfg.mode with
+     | .fifo => (pyInsert r k e).take k
+     | .lifo => (pyInsert r (r.length - k) e).drop ((pyInsert r (r.length - k) e).length - k)) =
+    (match s.cfg.mode with
+     | .fifo => r.take k
+     | .lifo => r.drop (r.length - k)) := by
+  cases s.cfg.mode with
+  | fifo => exact take_pyInsert' r k e hk
+  | lifo =>
+    simp only [pyInsert_length]
+    have : r.length + 1 - k = (r.length - k) + 1 := by omega
+    rw [this]
+    exact drop_succ_pyInsert r (r.length - k) e (by omega)
+
+theorem cancelGet_core {s : BufStore} (tid) (h : Core s) : Core (s.cancelGet tid).1 ∧
+    (s.cancelGet tid).1.timers = s.timers ∧ (s.cancelGet tid).1.transit = s.transit := by
+  have hlenEv : s.resEv.length = s.getRes.length := h.bindEv.length_eq
+  unfold cancelGet
+  split
+  · rename_i t hf
+    have ht := (findTok_some hf).1
+    simp only
+    have hsub : (allToks { s with getQ := s.getQ.erase t }).Sublist (allToks s) := by
+      unfold allToks; simp only
+      exact List.Sublist.append (List.Sublist.append (List.Sublist.refl _) List.erase_sublist) (List.Sublist.refl _)
+    have hpre : Pre { s with getQ := s.getQ.erase t } := by
+      obtain ⟨⟨a, b, c, f, g, i, j, k, l, m⟩, _, _⟩ := h
+      exact ⟨a, (hsub.map _).nodup b, fun t' ht' => c t' (hsub.subset ht'), f, g, i, j, k, l, m⟩
+    refine ⟨⟨trigGet_pre hpre, trigGet_wakePut h.wakePut, trigGet_wakeGet hpre ?_⟩, by simp, by simp⟩
+    intro t' q hq _
+    simp only at hq ⊢
+    have := h.wakeGet (List.ne_nil_of_mem ht); omega
+  · split
+    · rename_i t hf
+      have ht := (findTok_some hf).1
+      have hte : t ∈ s.resEv := h.bindEv.mem_iff.mpr ht
+      have hidx : s.resEv.idxOf t < s.resEv.length := List.idxOf_lt_length_of_mem hte
+      split
+      · omega
+      · split
+        · rename_i hnone
+          have := h.bindLen
+          rw [List.getElem?_eq_getElem (by omega)] at hnone; simp at hnone
+        · rename_i e hx
+          have her := bound_mem_ready h.toPre hx
+          have hrem := removeItem_eq_erase h.dist her
+          rw [if_pos (hasItem_of_mem her)]
+          simp only
+          have heres : e ∈ s.resItems := List.mem_of_getElem? hx
+          have hepart : e ∈ resPart s := h.bindItems.mem_iff.mp heres
+          have hgl : (s.getRes.erase t).length + 1 = s.getRes.length := by
+            have : 0 < s.getRes.length := List.length_pos_of_mem ht
+            rw [List.length_erase_of_mem ht]; omega
+          have hrl := length_eraseIdx_lt hidx
+          have hil : (s.resItems.eraseIdx (s.resEv.idxOf t)).length + 1 = s.resItems.length :=
+            length_eraseIdx_lt (by have := h.bindLen; omega)
+          have hreadyl : (s.ready.erase e).length + 1 = s.ready.length := by
+            have : 0 < s.ready.length := List.length_pos_of_mem her
+            rw [List.length_erase_of_mem her]; omega
+          have hble := h.bindLe
+          have hkl : (s.resEv.eraseIdx (s.resEv.idxOf t)).length = s.resEv.length - 1 := by omega
+          have hkle : s.resEv.length - 1 ≤ (s.ready.erase e).length := by omega
+          have hpre : Pre ((s.unbind t (s.resEv.idxOf t)).release e) := by
+            have hpe := resPart_erase h.toPre hepart (by omega)
+            have hrel := resPart_release (s := s) (s.ready.erase e) e (s.resEv.length - 1) hkle
+            obtain ⟨⟨a, b, c, f, g, i, j, k, l, m⟩, _, _⟩ := h
+            have hsub : (allToks ((s.unbind t (s.resEv.idxOf t)).release e)).Sublist (allToks s) := by
+              unfold allToks; simp only [release, unbind]
+              exact List.Sublist.append (List.Sublist.refl _) List.erase_sublist
+            have hperm : (pyInsert (s.ready.erase e) (match s.cfg.mode with
+                | .fifo => s.resEv.length - 1
+                | .lifo => (s.ready.erase e).length - (s.resEv.length - 1)) e).Perm s.ready :=
+              (pyInsert_perm _ _ _).trans (List.perm_cons_erase her).symm
+            refine ⟨?_, (hsub.map _).nodup b, fun t' ht' => by simpa [release, unbind] using c t' (hsub.subset ht'), ?_, ?_, ?_, ?_, ?_, l, ?_⟩
+            · intro c' hc'
+              simp only [release, unbind, level, hrem, pyInsert_length] at hc' ⊢
+              have := a c' hc'; simp only [level] at this; omega
+            · simp only [release, unbind]
+              rw [← List.erase_eq_eraseIdx_of_idxOf rfl]; exact f.erase t
+            · simp only [release, unbind]; omega
+            · simp only [release, unbind, hrem, pyInsert_length]; omega
+            · unfold resPart
+              simp only [release, unbind, hrem, hkl]
+              have hperm2 : (s.resItems.eraseIdx (s.resEv.idxOf t)).Perm ((resPart s).erase e) :=
+                (eraseIdx_perm_erase hx).trans (j.erase e)
+              cases hm : s.cfg.mode with
+              | fifo =>
+                simp only [hm] at hpe hrel ⊢
+                rw [hrel, hpe]; exact hperm2
+              | lifo =>
+                simp only [hm] at hpe hrel ⊢
+                rw [hrel, hpe]; exact hperm2
+            · unfold Distinct inside at *
+              simp only [release, unbind, hrem, hkl]
+              have hp : (s.transit ++ pyInsert (s.ready.erase e) (match s.cfg.mode with
+                | .fifo => s.resEv.length - 1
+                | .lifo => (s.ready.erase e).length - (s.resEv.length - 1)) e).Perm (s.transit ++ s.ready) :=
+                List.Perm.append_left _ hperm
+              exact ((hp.map _).nodup_iff).mpr k
+            · unfold inside at *
+              simp only [release, unbind, hrem, hkl]
+              have hp : (s.transit ++ pyInsert (s.ready.erase e) (match s.cfg.mode with
+                | .fifo => s.resEv.length - 1
+                | .lifo => (s.ready.erase e).length - (s.resEv.length - 1)) e).Perm (s.transit ++ s.ready) :=
+                List.Perm.append_left _ hperm
+              exact (List.Perm.append_left _ (hp.map _)).trans m
+          refine ⟨⟨trigGet_pre hpre, trigGet_wakePut ?_, trigGet_wakeGet hpre ?_⟩, by simp [release, unbind], by simp [release, unbind]⟩
+          · have := h.wakePut
+            unfold WakePut admits level at *
+            simp only [release, unbind, hrem, pyInsert_length, hreadyl]
+            exact this
+          · intro t' q hq _
+            simp only [release, unbind, hrem, pyInsert_length] at hq ⊢
+            have := h.wakeGet (by rw [hq]; simp); omega
+    · exact ⟨h, rfl, rfl⟩
+
+/-! ### an item becomes ready -/
+
+theorem moveRoom_of_transit {s : BufStore} (h : Pre s) {e : BEntry} (he : e ∈ s.transit) : s.moveRoom e = true := by
+  unfold moveRoom
+  cases hc : s.cfg.cap with
+  | none => rfl
+  | some c =>
+    have := h.cap c hc
+    have hl : (s.transit.erase e).length + 1 = s.transit.length := by
+      have : 0 < s.transit.length := List.length_pos_of_mem he
+      rw [List.length_erase_of_mem he]; omega
+    simp only [level] at this ⊢
+    apply decide_eq_true; omega
+
+theorem arrive_resPart {s : BufStore} (e : BEntry) (hk : s.resEv.length ≤ s.ready.length) :
+    resPart (s.arrive e) = resPart s := by
+  unfold resPart arrive
+  cases hm : s.cfg.mode with
+  | fifo => simp only [hm]; exact List.take_append_of_le_length hk
+  | lifo =>
+    simp only [hm, pyInsert_length]
+    have : s.ready.length + 1 - s.resEv.length = (s.ready.length - s.resEv.length) + 1 := by omega
+    rw [this]
+    exact drop_succ_pyInsert s.ready (s.ready.length - s.resEv.length) e (by omega)
+
+theorem arrive_ready_perm (s : BufStore) (e : BEntry) : (s.arrive e).ready.Perm (e :: s.ready) := by
+  unfold arrive
+  cases s.cfg.mode with
+  | fifo => simpa using List.perm_append_singleton e s.ready
+  | lifo => exact pyInsert_perm _ _ _
+
+theorem move_core {s : BufStore} (h : Core s) {e : BEntry} (he : e ∈ s.transit) :
+    Core (s.move e) ∧ (s.move e).transit = s.transit.erase e ∧ (s.move e).timers = s.timers := by
+  unfold move
+  rw [if_pos (moveRoom_of_transit h.toPre he)]
+  have hrp := arrive_ready_perm s e
+  have hl : (s.transit.erase e).length + 1 = s.transit.length := by
+    have : 0 < s.transit.length := List.length_pos_of_mem he
+    rw [List.length_erase_of_mem he]; omega
+  have hrl : (s.arrive e).ready.length = s.ready.length + 1 := by simpa using hrp.length_eq
+  have hin : (inside (s.arrive e)).Perm (inside s) := by
+    unfold inside
+    have h1 : (s.arrive e).transit = s.transit.erase e := by simp [arrive]
+    rw [h1]
+    have h2 : (s.transit.erase e ++ (s.arrive e).ready).Perm (s.transit.erase e ++ e :: s.ready) :=
+      List.Perm.append_left _ hrp
+    refine h2.trans ?_
+    refine List.perm_middle.trans ?_
+    have h3 : (e :: s.transit.erase e).Perm s.transit := (List.perm_cons_erase he).symm
+    exact List.Perm.append_right _ h3
+  have hpre : Pre (s.arrive e) := by
+    obtain ⟨⟨a, b, c, f, g, i, j, k, l, m⟩, _, _⟩ := h
+    refine ⟨?_, by simpa [arrive, allToks] using b, by simpa [arrive, allToks] using c, by simpa [arrive] using f,
+      by simpa [arrive] using g, ?_, ?_, ?_, by simpa [arrive] using l, ?_⟩
+    · intro c' hc'
+      have hc'' : s.cfg.cap = some c' := by simpa [arrive] using hc'
+      have := a c' hc''
+      simp only [level] at this ⊢
+      rw [hrl]; simp only [arrive]; omega
+    · rw [hrl]; simp only [arrive]; omega
+    · rw [arrive_resPart e i]; simpa [arrive] using j
+    · unfold Distinct at *; exact ((hin.map _).nodup_iff).mpr k
+    · have : (s.arrive e).gotLog = s.gotLog := by simp [arrive]
+      have hp : (s.arrive e).putLog = s.putLog := by simp [arrive]
+      rw [this, hp]
+      exact (List.Perm.append_left _ (hin.map _)).trans m
+  have hwp : WakePut (s.arrive e) := by
+    have := h.wakePut
+    unfold WakePut admits level at *
+    rw [hrl]
+    simp only [arrive] at *
+    intro hq
+    have := this hq
+    cases hc : s.cfg.cap with
+    | none => simp [hc] at this
+    | some c =>
+      simp only [hc] at this ⊢
+      have := of_decide_eq_false this
+      apply decide_eq_false; omega
+  have hpre2 := trigGet_pre hpre
+  refine ⟨⟨trigPut_pre hpre2, trigPut_wakePut ?_ ?_, trigPut_wakeGet (trigGet_wakeGet hpre ?_)⟩, by simp [arrive], by simp [arrive]⟩
+  · intro t q hq _ c hc
+    have hwp2 := trigGet_wakePut hwp
+    have := full_of_waiting hwp2 (by rw [hq]; simp) c hc
+    omega
+  · intro hc
+    have hwp2 := trigGet_wakePut hwp
+    rw [putQ_nil_of_inf hwp2 hc]; simp
+  · intro t q hq _
+    have hq' : s.getQ = t :: q := by simpa [arrive] using hq
+    have := h.wakeGet (by rw [hq']; simp)
+    rw [hrl]; simp only [arrive]; omega
+
+
+/-! ### time steps -/
+
+theorem fireAll_core (es : List BEntry) {s : BufStore} (h : Core s) (hp : (es ++ s.timers).Perm s.transit) :
+    Core (fireAll es s) ∧ (fireAll es s).timers.Perm (fireAll es s).transit := by
+  induction es generalizing s with
+  | nil => exact ⟨h, by simpa [fireAll] using hp⟩
+  | cons e es ih =>
+    have he : e ∈ s.transit := hp.mem_iff.mp (by simp)
+    have hc := setNow_core (max s.now e.due) h
+    have hm := move_core hc (e := e) (by simpa [setNow] using he)
+    unfold fireAll
+    refine ih hm.1 ?_
+    rw [hm.2.2, hm.2.1]
+    simp only [setNow]
+    have := hp.erase e
+    simpa using this
+
+theorem filter_split_perm (l : List BEntry) (p : BEntry → Bool) :
+    (l.filter p ++ l.filter (fun e => !p e)).Perm l := by
+  induction l with
+  | nil => simp
+  | cons x xs ih =>
+    by_cases hx : p x
+    · simp [List.filter_cons, hx]; exact ih
+    · simp [List.filter_cons, hx]
+      exact List.perm_middle.trans (List.Perm.cons x ih)
+
+theorem adv_binv {s : BufStore} (dt : Nat) (h : BInv s) : BInv (s.adv dt) := by
+  unfold adv
+  split
+  · exact h
+  · have hc : Core { s with timers := s.timers.filter (fun e => !(decide (e.due < s.now + dt))) } :=
+      core_of_eq h.toCore rfl rfl rfl rfl rfl rfl rfl rfl rfl rfl rfl rfl rfl
+    have hp := (filter_split_perm s.timers (fun e => decide (e.due < s.now + dt))).trans h.timers
+    have := fireAll_core (s.timers.filter (fun e => decide (e.due < s.now + dt))) hc (by simpa using hp)
+    exact ⟨setNow_core _ this.1, by simpa [setNow] using this.2⟩
+
+theorem settle_binv {s : BufStore} (h : BInv s) : BInv s.settle := by
+  unfold settle
+  have hc : Core { s with timers := s.timers.filter (fun e => !(decide (e.due ≤ s.now))) } :=
+    core_of_eq h.toCore rfl rfl rfl rfl rfl rfl rfl rfl rfl rfl rfl rfl rfl
+  have hp := (filter_split_perm s.timers (fun e => decide (e.due ≤ s.now))).trans h.timers
+  have := fireAll_core (s.timers.filter (fun e => decide (e.due ≤ s.now))) hc (by simpa using hp)
+  exact ⟨this.1, this.2⟩
+
+theorem kstep_binv {s : BufStore} (h : BInv s) : BInv s.kstep := by
+  unfold kstep
+  split
+  · exact h
+  · rename_i e es hts
+    split
+    · have hc : Core { s with timers := es } := core_of_eq h.toCore rfl rfl rfl rfl rfl rfl rfl rfl rfl rfl rfl rfl rfl
+      have hp := h.timers; rw [hts] at hp
+      have he : e ∈ s.transit := hp.mem_iff.mp (by simp)
+      have hm := move_core hc (e := e) (by simpa using he)
+      refine ⟨hm.1, ?_⟩
+      rw [hm.2.2, hm.2.1]
+      have := hp.erase e
+      simpa using this
+    · exact h
+
+theorem clearFired_binv {s : BufStore} (h : BInv s) : BInv { s with fired := [] } :=
+  ⟨clearFired_core h.toCore, h.timers⟩
+
+theorem step_binv {s : BufStore} (op : Op) (h : BInv s) (hok : OpOK s op) : BInv (s.step op).1 := by
+  have h' := clearFired_binv h
+  unfold step
+  cases op with
+  | reservePut p =>
+    refine ⟨reservePut_core p h'.toCore, ?_⟩
+    simp [reservePut]; exact h.timers
+  | reserveGet p =>
+    refine ⟨reserveGet_core p h'.toCore, ?_⟩
+    simp [reserveGet]; exact h.timers
+  | put p t x d =>
+    have := put_core p t x d h'.toCore (by simpa [OpOK, inside] using hok)
+    refine ⟨this.1, ?_⟩
+    rcases this.2 with h2 | h2
+    · exact h2
+    · exact absurd h.timers h2
+  | get p t =>
+    have := get_core p t h'.toCore
+    refine ⟨this.1, ?_⟩
+    rw [this.2.1, this.2.2]; exact h.timers
+  | cancelPut t =>
+    refine ⟨cancelPut_core t h'.toCore, ?_⟩
+    simp only [cancelPut]
+    split
+    · simp; exact h.timers
+    · split <;> simp [dropPutRes] <;> exact h.timers
+  | cancelGet t =>
+    have := cancelGet_core t h'.toCore
+    refine ⟨this.1, ?_⟩
+    rw [this.2.1, this.2.2]; exact h.timers
+  | adv dt => exact adv_binv dt h'
+  | settle => exact settle_binv h'
+  | kstep => exact kstep_binv h'
+  | final => exact ⟨updLevel_core h'.toCore, by simp [final]; exact h.timers⟩
+
+theorem init_binv (cfg : BufCfg) : BInv (init cfg) := by
+  refine ⟨⟨⟨?_, ?_, ?_, ?_, ?_, ?_, ?_, ?_, ?_, ?_⟩, ?_, ?_⟩, ?_⟩ <;>
+    simp [init, allToks, level, resPart, Distinct, inside, WakePut, WakeGet]
+  cases cfg.mode <;> simp
+
+/-- States reachable while the client never stores an object that is still inside. -/
+inductive ReachD : BufStore → Prop where
+  | init (cfg : BufCfg) : ReachD (init cfg)
+  | step {s : BufStore} (op : Op) : ReachD s → OpOK s op → ReachD (s.step op).1
+
+theorem reachD_binv {s : BufStore} (h : ReachD s) : BInv s := by
+  induction h with
+  | init cfg => exact init_binv cfg
+  | step op _ hok ih => exact step_binv op ih hok
+
 end BufStore
 end FsVerif
